@@ -43,9 +43,35 @@ def gen_enum(rng, merged):
             elif r < 70:
                 t = rng.choice(["a", "b c", "é", "", "0", "x-y"])
                 init, val = ("str", t), "s:" + t
-            elif r < 85 and numeric_names:
+            elif r < 80 and numeric_names:
                 n = rng.choice(numeric_names)
                 init, val = ("ref", n, rng.chance(1, 2)), values[n]
+            elif r < 88:
+                # a constant expression that evaluates to a string: tsc folds it and emits no reverse mapping
+                string_names = [n for n in names + [m[0] for m in ms] if isinstance(values.get(n), str)]
+                parts, text_ts, text_js, v = 1 + rng.below(3), [], [], ""
+                for _ in range(parts):
+                    q = rng.below(3)
+                    if q == 0 and string_names:
+                        n = rng.choice(string_names)
+                        qual = rng.chance(1, 2)
+                        text_ts.append(("E." if qual else "") + n)
+                        text_js.append("E." + n)
+                        v += values[n][2:]
+                    elif q == 1:
+                        t = rng.choice(["a", "M0", "M1", "x/", "é"])
+                        text_ts.append("`%s`" % t)
+                        text_js.append("`%s`" % t)
+                        v += t
+                    else:
+                        t = rng.choice(["a", "b", "M0", "M2", "/u", ""])
+                        text_ts.append(json.dumps(t))
+                        text_js.append(json.dumps(t))
+                        v += t
+                if len(text_ts) == 1 and not text_ts[0].startswith(("`", '"')):
+                    text_ts.append('""')
+                    text_js.append('""')
+                init, val = ("sexpr", " + ".join(text_ts), " + ".join(text_js), v), "s:" + v
             else:
                 a, b = rng.below(8), 1 + rng.below(4)
                 text, v = rng.choice([("%d << %d" % (a, b), a << b), ("%d | %d" % (a, b), a | b), ("%d + %d * 2" % (a, b), a + b * 2),
@@ -91,6 +117,9 @@ def enum_js(decls, name="E"):
             elif init[0] == "str":
                 body.append('%s["%s"] = %s;' % (name, n, json.dumps(init[1], ensure_ascii=False)))
                 prev = None
+            elif init[0] == "sexpr":
+                body.append('%s["%s"] = %s;' % (name, n, init[2].replace("E.", name + ".")))
+                prev = None
             else:
                 expr = init[1] if init[0] != "ref" else "%s.%s" % (name, init[1])
                 if init[0] == "ref":
@@ -122,6 +151,8 @@ def coq_decl(decls):
                 items.append("(%d%%nat, Num (%d)%%Z)" % (i, v))
             elif init[0] == "str":
                 items.append("(%d%%nat, Str %d%%nat)" % (i, strs.setdefault(init[1], len(strs))))
+            elif init[0] == "sexpr":
+                items.append("(%d%%nat, Str %d%%nat)" % (i, strs.setdefault(init[3], len(strs))))
             else:
                 items.append("(%d%%nat, Ref %d%%nat)" % (i, idx[init[1]]))
         out.append("[%s]" % "; ".join(items))
